@@ -147,6 +147,9 @@ type gen struct {
 	epochVars map[string]string
 	epochs map[string]*epochInfo
 	callSeq  int
+	roCondTerm string
+	captured []string            // refs of heap cells captured by closures made in this function (any call may run them)
+	private  map[*ssa.Alloc]bool // heap allocations of this function that unknown code can never reach
 	ghostCalls []ghostCall
 }
 
@@ -369,7 +372,30 @@ type parentLink struct {
 }
 
 // newEpoch starts a new heap epoch in st whose variables relate to the pre-state through keep.
-func (g *gen) newEpoch(st *state, keep func(name, r string) string, allocates bool) *state {
+func (g *gen) newEpoch(st *state, keep0 func(name, r string) string, allocates bool) *state {
+	keep := keep0
+	if len(g.captured) > 0 {
+		// variables captured by closures may be written by whatever runs now
+		caps := append([]string{}, g.captured...)
+		preTopNow := st.top
+		keep = func(name, r string) string {
+			k := keep0(name, r)
+			if r == "" || k == "false" {
+				return k
+			}
+			var ne []string
+			for _, c := range caps {
+				ne = append(ne, sNot(sEq(r, c)))
+			}
+			switch k {
+			case "weak":
+				return sAnd(append([]string{app("<=", r, preTopNow)}, ne...)...)
+			case "true":
+				return sAnd(ne...)
+			}
+			return sAnd(append([]string{k}, ne...)...)
+		}
+	}
 	pre := st.clone()
 	e := g.fresh("e")
 	g.epochs[e] = &epochInfo{parents: []parentLink{{pre, "true"}}, keep: keep}
@@ -553,14 +579,74 @@ func (g *gen) newRef(st *state, what string) string {
 
 // havocAll forgets everything about the heap (an unknown callee may have written anywhere).
 func (g *gen) havocAll(st *state) {
-	st.heap = map[string]string{}
-	st.epoch = g.fresh("e")
-	nt := g.newConst("top", "Int")
-	g.assert(app(">=", nt, st.top))
-	st.top = nt
+	g.newEpoch(st, func(name, r string) string { return g.privateKeep(name, r) }, true)
 	for a := range st.cells {
 		if g.escaped[a] {
 			st.cells[a] = g.newConst("cell."+sanitize(a.Comment), g.sorts.sortOf(deref(a.Type())))
+		}
+	}
+}
+
+// privateKeep: what survives an arbitrary heap havoc — the objects this function allocated and never let out.
+func (g *gen) privateKeep(name, r string) string {
+	if r == "" {
+		return "false"
+	}
+	var eqs []string
+	for a := range g.private {
+		if t, ok := g.vals[a]; ok {
+			eqs = append(eqs, sEq(r, t))
+		}
+	}
+	if len(eqs) == 0 {
+		return "false"
+	}
+	sort.Strings(eqs)
+	return sOr(eqs...)
+}
+
+// privateAnalysis: a heap allocation is private when its address is only used to read/write its own fields or
+// passed to callees whose (hand-written) contract or model says exactly what they modify.
+func (g *gen) privateAnalysis() {
+	g.private = map[*ssa.Alloc]bool{}
+	for _, b := range g.fn.Blocks {
+		for _, in := range b.Instrs {
+			a, ok := in.(*ssa.Alloc)
+			if !ok || !a.Heap || a.Referrers() == nil {
+				continue
+			}
+			if _, isStruct := deref(a.Type()).Underlying().(*types.Struct); !isStruct {
+				continue
+			}
+			priv := true
+			for _, r := range *a.Referrers() {
+				switch u := r.(type) {
+				case *ssa.FieldAddr, *ssa.DebugRef:
+				case *ssa.UnOp:
+				case *ssa.Store:
+					if u.Val == ssa.Value(a) {
+						priv = false
+					}
+				case *ssa.Call:
+					callee := u.Call.StaticCallee()
+					if callee == nil {
+						priv = false
+						break
+					}
+					if _, isModel := models[callee.String()]; isModel {
+						break
+					}
+					if con := g.P.contractFor(callee); con != nil && !con.flag("synth") {
+						break
+					}
+					priv = false
+				default:
+					priv = false
+				}
+			}
+			if priv {
+				g.private[a] = true
+			}
 		}
 	}
 }
@@ -828,6 +914,7 @@ func (P *Program) generate(fn *ssa.Function, con *Contract, opts genOpts) (vc *V
 	}
 	order := g.analyseLoops()
 	g.zeroOffAnalysis()
+	g.privateAnalysis()
 	// entry state
 	st := &state{heap: map[string]string{}, cells: map[*ssa.Alloc]string{}, epoch: "0"}
 	g.declare("top0", "Int")
